@@ -1,5 +1,6 @@
 #![allow(dead_code, clippy::all)]
 mod c02;
+mod c03;
 mod corpus;
 mod features;
 mod refeval;
@@ -55,6 +56,7 @@ fn main() {
     }
     let code = match ctx.id.as_str() {
         "C02" => c02::run(&ctx),
+        "C03" => c03::run(&ctx),
         _ => usage(),
     };
     std::process::exit(code);
@@ -63,6 +65,7 @@ fn main() {
 fn replay(id: &str, v: &serde_json::Value) -> i32 {
     match id {
         "C02" => c02::replay(v),
+        "C03" => c03::replay(v),
         _ => {
             eprintln!("no replay for {id}");
             3
